@@ -118,6 +118,7 @@ double MetaOptimizer::doStep()
   stepCount_++;
 
   int tolTest = 0;
+  bool allFull = true;
   double tol = getStopCondition()->getTolerance();
   if (stepCount_ <= n_)
   {
@@ -160,9 +161,15 @@ double MetaOptimizer::doStep()
       // A single step of some optimizers leaves the function at a trial point: set it back to the current point.
       getFunction()->setParameters(getParameters());
     }
-    tolTest += nbParameters_[i] > 0 ? 1 : 0;
+    if (nbParameters_[i] > 0)
+    {
+      tolTest++;
+      if (optDesc_->getIterationType(i) != MetaOptimizerInfos::IT_TYPE_FULL)
+        allFull = false;
+    }
   }
-  tolIsReached_ = (tolTest == 1);
+  // With a single optimizer, one full optimization at the final precision completes the work.
+  tolIsReached_ = (tolTest == 1) && allFull && (stepCount_ >= n_);
 
   return getFunction()->getValue();
 }
